@@ -11,13 +11,14 @@ NAMES = ("p0", "p1")
 
 class DSim:
     def __init__(self, expected=(None, None), can_dilate=(("ged",), ("ged",)), half=False, app=True, max_links=4,
-                 listen_late=False, stoppable=False, ping_interval=30.0, both_write=False, sides=("aa" * 8, "bb" * 8), peer_inert=False, throttle=False, no_listen=(False, False), silent_after_connect=False, lose_any=False):
+                 listen_late=False, stoppable=False, ping_interval=30.0, both_write=False, sides=("aa" * 8, "bb" * 8), peer_inert=False, throttle=False, no_listen=(False, False), silent_after_connect=False, lose_any=False, big_write=False):
         self.w = DWorld(sides=sides, expected=expected, can_dilate=can_dilate, ping_interval=ping_interval, no_listen=no_listen)
         self.w.__enter__()
         self.w.inert = peer_inert
         self.w.net.throttle = throttle
         self.throttle = throttle
         self.half, self.app, self.max_links, self.stoppable, self.both_write = half, app, max_links, stoppable, both_write
+        self.big_write = big_write      # the opener's second write on a subchannel is just under one Noise message (65515 bytes: encoded record 65524 > 65519)
         self.lose_any = lose_any        # any link may be lost at any time, also the only candidate of a generation (no convergence is claimed then)
         self.peer_inert = peer_inert     # an old peer without dilation support: never starts, never answers
         self.silent_after_connect = silent_after_connect   # canonical run: the link goes silent after convergence until the leader's monitor gives up
@@ -199,6 +200,8 @@ class DSim:
         elif k == "write":
             n = act[1]
             data = b"%s-w%d" % (n.encode(), self.nwrites[n])
+            if self.big_write and self.nwrites[n] == 1:
+                data = data + b"." * (65515 - len(data))
             self.nwrites[n] += 1
             self.ops[n].append(("write", data))
             self.w.sides[0].call("write", self.protos[n].transport.write, data)
